@@ -7,6 +7,7 @@ from vlib import core, prog, physics
 
 ASSUME = [
     "follow: a Gaussian blob (sigma 1.5 cells) is centred on the particle; after apply()/applyTo() the blob centroid and the particle must agree within 0.001 cell plus the oracle's own allowance |blob-weighted mean displacement - displacement interpolated at the particle| (curvature of the field over the blob); smooth fields and the real RF/drift/wake maps, interior particles",
+    "follow under a dynamic RF map: phase modulation (kick shift up to n/16 cells, 0.02-0.3 periods per step) and/or phase/amplitude noise; in each of 12 consecutive steps a blob is put on a particle, apply() then applyTo(): centroid and particle agree within 0.001 cell + 2.25 x the largest second difference of the kick table; cases whose kick changes by more than 0.01 cell between steps are counted and required",
     "inside the grid: every coordinate finite and in [0, n-1] after every applyTo, for legal start positions (what PhaseSpace::x()/y() can return) incl. the exact edges",
     "ensemble: 20000 particles from the unit Gaussian under RF kick + drift + stochastic Fokker-Planck for five damping times; mean within 6/sqrt(N) sigma of the zero bins and width within 6/sqrt(2N) + e1 + a/2 of 1 at every snapshot (statistics, discretisation of the stochastic process, O(a) tilt of the kick-drift invariant ellipse)",
     "program complement: tracking files with edge particles in the ASan/UBSan build with --outstep 1: no sanitizer report, all stored coordinates finite and inside the axes",
@@ -66,10 +67,12 @@ def prog_part(ctx):
 
 def run(ctx):
     ctx.assumptions = ASSUME
-    ctx.rule = ("follow: (map kind of 6, grid 32..256, order 2-4, shift, smooth displacement field) x 12 particles; ingrid: (all kick kinds with displacements up to 0.44 n, FP map x 4 tracking models x FP type x stencil x decrement) x 160 particles incl. 100 edge combinations x 12..400 steps; "
+    ctx.rule = ("follow: (map kind of 6, grid 32..256, order 2-4, shift, smooth displacement field) x 12 particles; followdyn: (dynamic RF map linear/sinus x phase modulation / noise / both, grid 48..192, order 2-4) x 12 consecutive steps, one blob + particle per step; ingrid: (all kick kinds with displacements up to 0.44 n, FP map x 4 tracking models x FP type x stencil x decrement) x 160 particles incl. 100 edge combinations x 12..400 steps; "
                 "ensemble: (grid, shifts, steps per period, decrement) x 20000 particles x five damping times; program: tracking files with edge particles under ASan/UBSan; distinct by parameters")
     th = ctx.tier == "thorough"
     core.run_harness(ctx, "c15", 12000 if th else 600, args=["--mode", "follow"])
+    core.run_harness(ctx, "c15", 6000 if th else 360, args=["--mode", "followdyn"])
+    core.run_harness(ctx, "c15", 200 if th else 36, variant="asan", args=["--mode", "followdyn"])
     core.run_harness(ctx, "c15", 12000 if th else 720, args=["--mode", "ingrid"])
     core.run_harness(ctx, "c15", 800 if th else 96, variant="asan", args=["--mode", "ingrid"])
     core.run_harness(ctx, "c15", 400 if th else 48, variant="asan", args=["--mode", "follow"])
@@ -77,4 +80,5 @@ def run(ctx):
     prog_part(ctx)
     ctx.min_events = {"particles_followed": 3000, "particle_moves_checked": 200000, "ensemble_snapshots": 100,
                       "fp_track_model.0": 10, "fp_track_model.1": 10, "fp_track_model.2": 10, "fp_track_model.3": 10,
-                      "tracking_runs_under_sanitizer": 4}
+                      "tracking_runs_under_sanitizer": 4,
+                      "particles_followed_dynamic_rf": 2000, "followdyn_cases_with_kick_changing_between_steps": 150}
